@@ -435,7 +435,9 @@ func newAddressScriptHash32FromHash(scriptHash []byte, net *chaincfg.Params) (*A
 // EncodeAddress returns the string encoding of a pay-to-script-hash
 // address.  Part of the Address interface.
 func (a *AddressScriptHash32) EncodeAddress() string {
-	return encodeCashAddress(a.hash[:], a.prefix, AddrTypePayToScriptHash) // TODO TODO
+	// P2SH32 is the script hash type with the 256 bit size code: the whole
+	// 32 byte hash is encoded, not only its first 20 bytes.
+	return checkEncodeCashAddress(a.hash[:], a.prefix, AddrTypePayToScriptHash)
 }
 
 // ScriptAddress returns the bytes to be included in a txout script to pay
@@ -759,19 +761,23 @@ func checkDecodeCashAddress(input string) (result []byte, prefix string, t Addre
 	if err != nil {
 		return data, prefix, AddrTypePayToPubKeyHash, err
 	}
-	if len(data) != 21 {
+	if len(data) != 1+ripemd160.Size && len(data) != 1+sha256.Size {
 		return data, prefix, AddrTypePayToPubKeyHash, errors.New("incorrect data length")
 	}
-	switch data[0] {
-	case 0x00:
+	// The version byte is the address type (upper bits) and the size code
+	// of the hash (lower three bits); it must agree with the hash length.
+	switch {
+	case data[0] == 0x00 && len(data) == 1+ripemd160.Size:
 		t = AddrTypePayToPubKeyHash
-	case 0x08:
+	case data[0] == 0x08 && len(data) == 1+ripemd160.Size:
 		t = AddrTypePayToScriptHash
+	case data[0] == 0x0b && len(data) == 1+sha256.Size:
+		t = AddrTypePayToScriptHash32
 	default:
-		// Any other type/size version byte does not describe a 20 byte hash.
+		// Any other type/size version byte is not a known address kind.
 		return data, prefix, AddrTypePayToPubKeyHash, ErrUnknownAddressType
 	}
-	return data[1:21], prefix, t, nil
+	return data[1:], prefix, t, nil
 }
 
 // AddressType represents the type of address and is used
